@@ -395,8 +395,10 @@ func (s *Server) listAndFilterObjects(ctx context.Context, r *http.Request, buck
 				return &storage.ListBucketResult{Objects: collectedObjects, CommonPrefixes: collectedPrefixes, IsTruncated: false}, nil, nil
 			}
 		}
+		// The storage delivers every common prefix behind startAfter with each page,
+		// so only the keys move the position the next fetch starts behind: starting
+		// behind a prefix would list the keys that sort after it a second time.
 		for _, commonPrefix := range result.CommonPrefixes {
-			lastScanned = &commonPrefix
 			allowed, err := s.authorizeListObject(ctx, baseRequest, commonPrefix, nil)
 			if err != nil {
 				return nil, nil, err
